@@ -285,14 +285,19 @@ def decode_script(
     if witness:
         witness_stack_len, scriptbytes = bits.parse_compact_size_uint(scriptbytes)
         parsed_bytes = bits.compact_size_uint(witness_stack_len)
+        if not witness_stack_len:
+            # empty witness stack
+            if parse:
+                return parsed_bytes, scriptbytes
+            return decoded, scriptbytes
 
     while scriptbytes:
         if witness:
-            push = scriptbytes[0]
-            data = scriptbytes[1 : 1 + push]
-            parsed_bytes += scriptbytes[: 1 + push]
+            push, rest = bits.parse_compact_size_uint(scriptbytes)
+            data = rest[:push]
+            parsed_bytes += scriptbytes[: len(scriptbytes) - len(rest) + push]
             decoded.append(data.hex())
-            scriptbytes = scriptbytes[1 + push :]
+            scriptbytes = rest[push:]
             witness_stack_len -= 1
             if not witness_stack_len:
                 if parse:
